@@ -4,6 +4,7 @@ import M3d.Lemmas.MeshDiagOrient
 import M3d.Lemmas.MeshDiagOrientComp
 import M3d.Lemmas.MeshDiagRepair
 import M3d.Lemmas.MeshDiagLink
+import M3d.Lemmas.MeshDiagSweep
 /-!
 # C11 — mesh diagnostics, repair and nesting agree with their definitions
 
@@ -641,6 +642,145 @@ example :
     (∀ a ∈ cs, ∀ b ∈ cs, ∀ c ∈ cs, enc a c = true → enc b c = true → a = b ∨ enc a b = true ∨ enc b a = true) ∧
     Forest.contains (fun c => c.1 == 0) (meshToHierarchy enc enc sorted ts) = true ∧
     Forest.contains (fun _ => true) (meshToHierarchy enc enc sorted ts) = false := by
+  decide
+
+/-! ### shortcuts in front of the root-level containment test, and the sweep order -/
+
+/-- **A test in front of the root-level containment call is harmless iff it never rejects an
+encloser.**  `ClosedMeshLoop` asks every root `x` whether `x.MeshSolid.Contains(minVertex)`; put a
+cheap test `keep x new` in front (`if !keep { continue }`, model `rootKeep`).  If `keep` holds
+whenever the root really encloses the new component, the hierarchy is the one built without the
+test, so `hierarchy_nesting` / `hierarchy_contains_eq_evenodd` still apply.  (The example after
+`bbox_max_corner_is_not_the_far_corner` shows what happens otherwise.) -/
+theorem hierarchy_root_prefilter_sound (keep enc : Comp → Comp → Bool) (sorted : List Nat)
+    (ts : List Tri)
+    (hkeep : ∀ a ∈ strippedComps (enum ts) sorted (enum ts), ∀ b ∈ strippedComps (enum ts) sorted (enum ts),
+      enc a b = true → keep a b = true) :
+    meshToHierarchy (rootKeep keep enc) enc sorted ts = meshToHierarchy enc enc sorted ts := by
+  refine hierarchy_probe_independent enc (rootKeep keep enc) enc sorted ts fun a ha b hb => ⟨?_, rfl⟩
+  cases he : enc a b with
+  | false => simp [rootKeep, he]
+  | true => simp [rootKeep, he, hkeep a ha b hb he]
+
+/-- **The bounding-box shortcut is sound with the FAR corner**: over every linear ordered field,
+for every sweep axis, if the sweep vertex of an enclosed component lies in the bounding box
+`[mn a, mx a]` of each component `a` enclosing it (a solid lies in its bounding box), then skipping
+a root when `farCorner.Dot(axis) < minVertex.Dot(axis)` changes nothing: the projection of every
+point of a box is at most that of the corner taking, per coordinate, the maximum where the axis is
+non-negative and the MINIMUM where it is negative. -/
+theorem bbox_far_corner_prefilter_sound {K : Type} [Field K] [LinearOrder K] [IsStrictOrderedRing K]
+    (axis : Vec3 K) (pos : Nat → Vec3 K) (mn mx : Comp → Vec3 K) (enc : Comp → Comp → Bool)
+    (sorted : List Nat) (ts : List Tri)
+    (hbox : ∀ a ∈ strippedComps (enum ts) sorted (enum ts), ∀ b ∈ strippedComps (enum ts) sorted (enum ts),
+      enc a b = true → InBox (mn a) (mx a) (pos b.1)) :
+    meshToHierarchy (rootKeep (cornerKeep axis (fun y => farCorner axis (mn y) (mx y)) pos) enc) enc sorted ts =
+      meshToHierarchy enc enc sorted ts := by
+  refine hierarchy_root_prefilter_sound _ enc sorted ts fun a ha b hb he => ?_
+  have := vdot_le_farCorner axis (mn a) (mx a) (pos b.1) (hbox a ha b hb he)
+  simp only [cornerKeep, Bool.not_eq_true', decide_eq_false_iff_not, not_lt]
+  exact this
+
+/-- … and `Max()` IS the far corner when no component of the axis is negative — the situation of
+`model2d` (`arbitraryAxis = (0.95, 0.27)`): there the shortcut with `x.Max()` is sound. -/
+theorem bbox_max_corner_prefilter_sound_of_nonneg {K : Type} [Field K] [LinearOrder K]
+    [IsStrictOrderedRing K] (axis : Vec3 K) (hx : 0 ≤ axis.x) (hy : 0 ≤ axis.y) (hz : 0 ≤ axis.z)
+    (pos : Nat → Vec3 K) (mn mx : Comp → Vec3 K) (enc : Comp → Comp → Bool)
+    (sorted : List Nat) (ts : List Tri)
+    (hbox : ∀ a ∈ strippedComps (enum ts) sorted (enum ts), ∀ b ∈ strippedComps (enum ts) sorted (enum ts),
+      enc a b = true → InBox (mn a) (mx a) (pos b.1)) :
+    meshToHierarchy (rootKeep (cornerKeep axis (fun y => maxCorner (mn y) (mx y)) pos) enc) enc sorted ts =
+      meshToHierarchy enc enc sorted ts := by
+  have := bbox_far_corner_prefilter_sound axis pos mn mx enc sorted ts hbox
+  simpa only [farCorner_eq_max_of_nonneg axis _ _ hx hy hz] using this
+
+/-- With a negative axis component — `model3d`'s `arbitraryAxis = (0.95, 0.27, -0.148)` — `Max()`
+is NOT the far corner: every box that is not flat in that direction has a point (its corner
+`(max.x, max.y, min.z)`) whose projection exceeds that of `Max()` by `|axis.z|·(max.z − min.z)`.
+A component starting there is skipped by a shortcut that uses `Max()`. -/
+theorem bbox_max_corner_is_not_the_far_corner {K : Type} [Field K] [LinearOrder K] [IsStrictOrderedRing K]
+    (axis mn mx : Vec3 K) (hbox : mn.x ≤ mx.x ∧ mn.y ≤ mx.y ∧ mn.z < mx.z) (hz : axis.z < 0) :
+    ∃ p, InBox mn mx p ∧ vdot (maxCorner mn mx) axis < vdot p axis ∧
+      vdot p axis ≤ vdot (farCorner axis mn mx) axis :=
+  ⟨⟨mx.x, mx.y, mn.z⟩, (maxCorner_not_bound axis mn mx hbox hz).1, (maxCorner_not_bound axis mn mx hbox hz).2,
+    vdot_le_farCorner axis mn mx _ (maxCorner_not_bound axis mn mx hbox hz).1⟩
+
+/-- The column with a void, at model level (integer coordinates, axis ×1000): a tetrahedral
+component `A` (swept from vertex 0) with bounding box `[0,2]×[0,2]×[0,20]` encloses `B` (swept from
+vertex 4 at `(1,1,10)`).  `Max().Dot(axis) = -518 < -259 = minVertex.Dot(axis)`, so the shortcut
+with `Max()` skips `A`: `B` becomes a second root and a point inside both is classified as inside;
+with the far corner `(2,2,0)` the hierarchy is the right one (`B` child of `A`, the point outside). -/
+example :
+    let ts : List Tri := [(0,1,2),(0,2,3),(0,3,1),(1,3,2),(4,5,6),(4,6,7),(4,7,5),(5,7,6)]
+    let enc : Comp → Comp → Bool := fun a b => a.1 == 0 && b.1 == 4
+    let sorted := [0,4,1,2,3,5,6,7]
+    let axis : Vec3 Int := ⟨952, 269, -148⟩
+    let pos : Nat → Vec3 Int := fun v => if v == 4 then ⟨1, 1, 10⟩ else ⟨0, 0, 0⟩
+    let mn : Vec3 Int := ⟨0, 0, 0⟩
+    let mx : Vec3 Int := ⟨2, 2, 20⟩
+    let good := meshToHierarchy enc enc sorted ts
+    let viaFar := meshToHierarchy (rootKeep (cornerKeep axis (fun _ => farCorner axis mn mx) pos) enc) enc sorted ts
+    let viaMax := meshToHierarchy (rootKeep (cornerKeep axis (fun _ => maxCorner mn mx) pos) enc) enc sorted ts
+    vdot (maxCorner mn mx) axis = -518 ∧ vdot (pos 4) axis = -259 ∧ vdot (farCorner axis mn mx) axis = 2442 ∧
+    Forest.contains (fun _ => true) good = false ∧ Forest.contains (fun _ => true) viaFar = false ∧
+    Forest.contains (fun _ => true) viaMax = true ∧
+    ((Forest.fullMesh (·.2) viaMax).map (·.1)).length = 8 := by
+  decide
+
+/-- **The sweep order from the sweep key** — the order hypothesis `hord` of `hierarchy_nesting`
+(no component encloses a component stripped before it) follows from what the code's comment says:
+the vertices are visited by non-decreasing key (`sort.Sort` over `c.Dot(arbitraryAxis)`, ties in
+any order), every vertex is listed, and an enclosing component has a vertex whose key is smaller
+than the key of every vertex of the enclosed one (`hull_point_not_before_all` is the linear half of
+that geometric fact: a point of the convex hull of `b`'s vertices does not project below all of
+them).  Proved through: the sweep vertex of a stripped component is the FIRST vertex of that
+component in the sweep order (`strippedComps_first`). -/
+theorem hierarchy_sweep_order_from_key {K : Type} [LinearOrder K] (key : Nat → K)
+    (enc : Comp → Comp → Bool) (sorted : List Nat) (ts : List Tri)
+    (hs : ∀ v ∈ verts ts, v ∈ sorted) (hsorted : SweepSorted key sorted)
+    (hgeo : ∀ a ∈ strippedComps (enum ts) sorted (enum ts), ∀ b ∈ strippedComps (enum ts) sorted (enum ts),
+      enc b a = true → ∃ v ∈ compVerts b, ∀ w ∈ compVerts a, key v < key w) :
+    (strippedComps (enum ts) sorted (enum ts)).Pairwise (fun a b => enc b a = false) := by
+  refine strippedComps_sweep_pairwise key enc (enum ts) sorted (hierInv_init ts sorted hs) ?_ hsorted hgeo
+  intro g hg w hw
+  refine hs w ?_
+  simp only [verts, List.mem_eraseDups, vertsAll, List.mem_flatMap]
+  exact ⟨g.2, mem_enum_snd hg, by simpa [hasVert] using hw⟩
+
+/-- `hierarchy_nesting` with the order hypothesis replaced by the sweep key. -/
+theorem hierarchy_nesting_of_sweep_key {K : Type} [LinearOrder K] (key : Nat → K)
+    (enc : Comp → Comp → Bool) (sorted : List Nat) (ts : List Tri)
+    (hsn : sorted.Nodup) (hs : ∀ v ∈ verts ts, v ∈ sorted) (hsorted : SweepSorted key sorted)
+    (hgeo : ∀ a ∈ strippedComps (enum ts) sorted (enum ts), ∀ b ∈ strippedComps (enum ts) sorted (enum ts),
+      enc b a = true → ∃ v ∈ compVerts b, ∀ w ∈ compVerts a, key v < key w)
+    (htrans : ∀ a ∈ strippedComps (enum ts) sorted (enum ts), ∀ b ∈ strippedComps (enum ts) sorted (enum ts),
+      ∀ c ∈ strippedComps (enum ts) sorted (enum ts), enc a b = true → enc b c = true → enc a c = true)
+    (hlam : ∀ a ∈ strippedComps (enum ts) sorted (enum ts), ∀ b ∈ strippedComps (enum ts) sorted (enum ts),
+      ∀ c ∈ strippedComps (enum ts) sorted (enum ts), enc a c = true → enc b c = true →
+        a = b ∨ enc a b = true ∨ enc b a = true) :
+    (Forest.nodes (meshToHierarchy enc enc sorted ts)).Perm (strippedComps (enum ts) sorted (enum ts)) ∧
+    ∀ a ∈ Forest.nodes (meshToHierarchy enc enc sorted ts),
+      ∀ b ∈ Forest.nodes (meshToHierarchy enc enc sorted ts),
+        Forest.IsAnc a b (meshToHierarchy enc enc sorted ts) ↔ enc a b = true := by
+  refine hierarchy_nesting enc sorted ts hsn ?_ (hierarchy_sweep_order_from_key key enc sorted ts hs hsorted hgeo)
+    htrans hlam
+  -- irreflexive: a component has no vertex before all of its own vertices
+  intro a ha
+  cases he : enc a a with
+  | false => rfl
+  | true =>
+    obtain ⟨v, hv, hlt⟩ := hgeo a ha a ha he
+    exact absurd (hlt v hv) (lt_irrefl _)
+
+/-- Non-vacuity of the key hypotheses: the two nested tetrahedra of the example below, keys
+`0,4,1,2,3,5,6,7 ↦ 0,1,2,…` (the encloser starts first). -/
+example :
+    let ts : List Tri := [(0,1,2),(0,2,3),(0,3,1),(1,3,2),(4,5,6),(4,6,7),(4,7,5),(5,7,6)]
+    let enc : Comp → Comp → Bool := fun a b => a.1 == 0 && b.1 == 4
+    let sorted := [0,4,1,2,3,5,6,7]
+    let key : Nat → Nat := fun v => (sorted.idxOf v)
+    let cs := strippedComps (enum ts) sorted (enum ts)
+    SweepSorted key sorted ∧ (∀ v ∈ verts ts, v ∈ sorted) ∧
+    (∀ a ∈ cs, ∀ b ∈ cs, enc b a = true → ∃ v ∈ compVerts b, ∀ w ∈ compVerts a, key v < key w) := by
   decide
 
 end M3d.C11
